@@ -992,6 +992,11 @@ class Struct(NameValues):
         with indent(2):
             for m in self.values:
                 m.emit_assert()
+            # An absent optional member cannot be followed by a present one,
+            # the decoder would attribute the value to the absent member.
+            optionals = [m for m in self.values if isinstance(m, NetOptional)]
+            for absent, present in zip(optionals, optionals[1:]):
+                print("assert!(self.{}.is_some() || self.{}.is_none());".format(snake(absent.name), snake(present.name)))
             for m in self.values:
                 m.emit_encode()
         print("        Ok(_p.written())")
@@ -1244,12 +1249,19 @@ class NetOptional(Member):
         if not inner_decode.endswith(END):
             raise ValueError("can't form an optional of this type")
         return "{}.ok()".format(inner_decode[:-len(END)])
-    def encode_expr(self, self_expr):
-        return self.inner.encode_expr("{}.unwrap()").format(self_expr)
+    def emit_assert(self):
+        assertion = self.inner.assert_expr("v")
+        if assertion is not None:
+            print("if let Some(v) = self.{} {{".format(snake(self.name)))
+            print("    {};".format(assertion))
+            print("}")
+    def emit_encode(self):
+        # An absent optional member is not written.
+        print("if let Some(v) = self.{} {{".format(snake(self.name)))
+        print("    {}?;".format(self.inner.encode_expr("v")))
+        print("}")
     def debug_expr(self, self_expr):
         return "{}.as_ref().map(|v| {})".format(self_expr, self.inner.debug_expr("v"))
-    def assert_expr(self, self_expr):
-        return "assert!({}.is_some())".format(self_expr)
     def serialize_type(self):
         return {"kind": self.kind, "inner": self.inner.serialize_type()}
     @staticmethod
